@@ -448,10 +448,14 @@ func (r *Reader) metaSeq(moltype, id []byte) (seq.Sequence, error) {
 	for {
 		line, err = r.r.ReadBytes('\n')
 		if err != nil {
-			if err == io.EOF {
+			if err != io.EOF {
+				return nil, &csv.ParseError{Line: r.line, Err: err}
+			}
+			// A final line without a terminator is still a line.
+			if len(bytes.TrimSpace(line)) == 0 {
 				return nil, err
 			}
-			return nil, &csv.ParseError{Line: r.line, Err: err}
+			err = nil
 		}
 		r.line++
 		line = bytes.TrimSpace(line)
